@@ -95,6 +95,51 @@ SPECS = [
     ("chanShrinkFactor", "command/src/channel.rs", r"self\.front_buf\.available_data\(\) \* (\d+) < self\.initial_buffer_size", "front buffer shrinks when data * this < initial size"),
     ("chanGrowFactor", "command/src/channel.rs", r"current_capacity\.saturating_mul\((\d+)\)", "grow_size doubling factor"),
     ("chanWriteGrowFactor", "command/src/channel.rs", r"new_length\.saturating_mul\((\d+)\)", "write_delimited_message doubling factor"),
+    # --- ProxyProto / Pipe (C18) ---
+    ("ppAddrLenV4", "lib/src/protocol/proxy_protocol/header.rs", r"fn len\(&self\) -> u16 \{\s+match \*self \{\s+ProxyAddr::Ipv4Addr \{ \.\. \} => (\d+),", "encoder: IPv4 address block size"),
+    ("ppAddrLenV6", "lib/src/protocol/proxy_protocol/header.rs", r"fn len\(&self\) -> u16 \{\s+match \*self \{[\s\S]{0,200}?ProxyAddr::Ipv6Addr \{ \.\. \} => (\d+),", "encoder: IPv6 address block size"),
+    ("ppAddrLenUnix", "lib/src/protocol/proxy_protocol/header.rs", r"fn len\(&self\) -> u16 \{\s+match \*self \{[\s\S]{0,200}?ProxyAddr::UnixAddr \{ \.\. \} => (\d+),", "encoder: UNIX address block size"),
+    ("ppAddrLenUnspec", "lib/src/protocol/proxy_protocol/header.rs", r"fn len\(&self\) -> u16 \{\s+match \*self \{[\s\S]{0,200}?ProxyAddr::AfUnspec => (\d+),", "encoder: UNSPEC address block size"),
+    ("ppFamV4Hi", "lib/src/protocol/proxy_protocol/header.rs", r"ProxyAddr::Ipv4Addr \{ \.\. \} => (0x[0-9a-fA-F]+) \| 0x[0-9a-fA-F]+,", "get_family: AF_INET nibble (shifted)"),
+    ("ppFamV4Lo", "lib/src/protocol/proxy_protocol/header.rs", r"ProxyAddr::Ipv4Addr \{ \.\. \} => 0x[0-9a-fA-F]+ \| (0x[0-9a-fA-F]+),", "get_family: STREAM"),
+    ("ppFamV6Hi", "lib/src/protocol/proxy_protocol/header.rs", r"ProxyAddr::Ipv6Addr \{ \.\. \} => (0x[0-9a-fA-F]+) \| 0x[0-9a-fA-F]+,", "get_family: AF_INET6 nibble (shifted)"),
+    ("ppFamV6Lo", "lib/src/protocol/proxy_protocol/header.rs", r"ProxyAddr::Ipv6Addr \{ \.\. \} => 0x[0-9a-fA-F]+ \| (0x[0-9a-fA-F]+),", "get_family: STREAM"),
+    ("ppFamUnixHi", "lib/src/protocol/proxy_protocol/header.rs", r"ProxyAddr::UnixAddr \{ \.\. \} => (0x[0-9a-fA-F]+) \| 0x[0-9a-fA-F]+,", "get_family: AF_UNIX nibble (shifted)"),
+    ("ppFamUnixLo", "lib/src/protocol/proxy_protocol/header.rs", r"ProxyAddr::UnixAddr \{ \.\. \} => 0x[0-9a-fA-F]+ \| (0x[0-9a-fA-F]+),", "get_family: STREAM"),
+    ("ppFamUnspec", "lib/src/protocol/proxy_protocol/header.rs", r"ProxyAddr::AfUnspec => (0x[0-9a-fA-F]+),", "get_family: AF_UNSPEC"),
+    ("ppVersionBits", "lib/src/protocol/proxy_protocol/header.rs", r"let ver_and_cmd = (0x[0-9a-fA-F]+) \| command;", "encoder: version nibble"),
+    ("ppEncCmdLocal", "lib/src/protocol/proxy_protocol/header.rs", r"Command::Local => (\d+),", "encoder: LOCAL command bit"),
+    ("ppEncCmdProxy", "lib/src/protocol/proxy_protocol/header.rs", r"Command::Proxy => (\d+),", "encoder: PROXY command bit"),
+    ("ppUnixPathLen", "lib/src/protocol/proxy_protocol/header.rs", r"src_addr: \[u8; (\d+)\],", "UNIX socket path field"),
+    ("ppParseCmdLocal", "lib/src/protocol/proxy_protocol/parser.rs", r"(0x[0-9a-fA-F]+) => Ok\(\(i, Command::Local\)\),", "parser: ver/cmd byte for LOCAL"),
+    ("ppParseCmdProxy", "lib/src/protocol/proxy_protocol/parser.rs", r"(0x[0-9a-fA-F]+) => Ok\(\(i, Command::Proxy\)\),", "parser: ver/cmd byte for PROXY"),
+    ("ppParseFamUnspec", "lib/src/protocol/proxy_protocol/parser.rs", r"(0x[0-9a-fA-F]+) => Ok\(\(i, ProxyAddr::AfUnspec\)\),", "parser: family nibble UNSPEC"),
+    ("ppParseFamV4", "lib/src/protocol/proxy_protocol/parser.rs", r"(0x[0-9a-fA-F]+) => parse_ipv4_on_v2\(i\),", "parser: family nibble INET"),
+    ("ppParseFamV6", "lib/src/protocol/proxy_protocol/parser.rs", r"(0x[0-9a-fA-F]+) => parse_ipv6_on_v2\(i\),", "parser: family nibble INET6"),
+    ("ppParseIpLenV4", "lib/src/protocol/proxy_protocol/parser.rs", r"fn parse_ipv4_on_v2[^\n]*\n\s+let in_len = i\.len\(\);\s+let \(i, src_ip\) = take\((\d+)u8\)\(i\)\?;", "parser: IPv4 address bytes"),
+    ("ppParseIpLenV6", "lib/src/protocol/proxy_protocol/parser.rs", r"fn parse_ipv6_on_v2[^\n]*\n\s+let in_len = i\.len\(\);\s+let \(i, src_ip\) = take\((\d+)u8\)\(i\)\?;", "parser: IPv6 address bytes"),
+    ("ppExpectStageV4", "lib/src/protocol/proxy_protocol/expect.rs", r"HeaderLen::V4 => (\d+),", "expect: first read window"),
+    ("ppExpectStageV6", "lib/src/protocol/proxy_protocol/expect.rs", r"HeaderLen::V6 => (\d+),", "expect: second read window"),
+    ("ppExpectStageUnix", "lib/src/protocol/proxy_protocol/expect.rs", r"HeaderLen::Unix => (\d+),", "expect: last read window"),
+    ("ppExpectBufLen", "lib/src/protocol/proxy_protocol/expect.rs", r"frontend_buffer: \[u8; (\d+)\],", "expect: reassembly buffer"),
+    ("ppExpectBumpV4", "lib/src/protocol/proxy_protocol/expect.rs", r"HeaderLen::V4 => \{\s+if self\.index == (\d+) \{", "expect: index at which stage V4 -> V6"),
+    ("ppExpectBumpV6", "lib/src/protocol/proxy_protocol/expect.rs", r"HeaderLen::V6 => \{\s+if self\.index == (\d+) \{", "expect: index at which stage V6 -> Unix"),
+    ("ppExpectOversize", "lib/src/protocol/proxy_protocol/expect.rs", r"HeaderLen::Unix => \{\s+if self\.index == (\d+) \{", "expect: index at which the header is declared oversized"),
+    ("maxLoopIterations", "command/src/config.rs", r"pub const MAX_LOOP_ITERATIONS: usize = ([^;]+);", "readiness loop cap shared by every session state"),
+    ("poolConsumeShiftDiv", "lib/src/pool.rs", r"if self\.inner\.position > self\.capacity\(\) / (\d+) \{", "Checkout::consume shifts when position > capacity / this"),
+    # --- Backends (C12) ---
+    ("backendRetryMaxTries", "lib/src/backends.rs", r"retry::ExponentialBackoffPolicy::new\((\d+)\)", "Backend::new: max_tries of the per-backend back-off policy"),
+    ("lbRandomDefaultWeight", "lib/src/load_balancing.rs", r"\.map\(\|p\| p\.weight\)\s*\.unwrap_or\((\d+)\)", "Random: weight of a backend without load_balancing_parameters"),
+    ("lbDefaultWeight", "lib/src/load_balancing.rs", r"\nconst DEFAULT_WEIGHT: i32 = ([^;]+);", "HRW/Maglev default weight"),
+    ("lbMaglevTableSize", "lib/src/load_balancing.rs", r"pub const DEFAULT_TABLE_SIZE: usize = ([^;]+);", "Maglev table size M"),
+    ("h2DefaultInitialWindowSize", "lib/src/protocol/mux/h2.rs", r"const DEFAULT_INITIAL_WINDOW_SIZE: u32 = ([^;]+);", "RFC default stream/connection window"),
+    ("h2EnlargedConnectionWindow", "lib/src/protocol/mux/h2.rs", r"\nconst ENLARGED_CONNECTION_WINDOW: u32 = ([^;]+);", "default initial_connection_window"),
+    ("h2ErrInternalError", "lib/src/protocol/mux/parser.rs", r"\n\s+InternalError = (0x[0-9a-fA-F]+),", "H2Error::InternalError code"),
+    ("muxH1FrontStreamWindow", "lib/src/http.rs", r"\.create_stream\(request_id, ([^)]+)\)", "Stream.window given to streams of HTTP/1 frontends (http listener)"),
+    ("muxH1sFrontStreamWindow", "lib/src/https.rs", r"context\.create_stream\(handshake\.request_id, ([^)]+)\)", "Stream.window given to streams of HTTP/1 frontends (https listener)"),
+    # --- Headers (C03/C13) ---
+    ("hdrMaxTrailerBytes", "lib/src/protocol/mux/pkawa.rs", r"pub const MAX_TRAILER_BYTES: usize = ([^;]+);", "per-trailer-block byte cap"),
+    ("hdrFieldSizeOverhead", "lib/src/protocol/mux/h2.rs", r"const HEADER_FIELD_SIZE_OVERHEAD: usize = ([^;]+);", "RFC 9113 6.5.2 per-field overhead"),
 ]
 
 # byte tables: (lean name, file, regex with ONE group = comma-separated byte list)
@@ -103,6 +148,39 @@ BYTE_TABLES = [
     ("udpPp2Signature", "lib/src/protocol/udp/proxy_protocol.rs", r"const PP2_SIGNATURE: \[u8; 12\] = \[([^\]]+)\];"),
     ("h2SettingsAck", "lib/src/protocol/mux/serializer.rs", r"pub const SETTINGS_ACKNOWLEDGEMENT: \[u8; 9\] = \[([^\]]+)\];"),
     ("h2PingAckHeader", "lib/src/protocol/mux/serializer.rs", r"pub const PING_ACKNOWLEDGEMENT_HEADER: \[u8; 9\] = \[([^\]]+)\];"),
+    ("ppEncSignature", "lib/src/protocol/proxy_protocol/header.rs", r"let signature = \[([^\]]+)\];"),
+]
+
+
+# boolean code-shape flags: (lean name, file, regex present when TRUE, regex present when FALSE, doc).
+# Exactly one of the two patterns must match, otherwise the translator refuses.
+FLAGS = [
+    ("hubForwardsTimedOut", "bin/src/command/server.rs",
+     r"task\.job\.on_finish\(&mut self\.server, client, timed_out\)",
+     r"task\.job\.on_finish\(&mut self\.server, client, false\)",
+     "handle_finishing_task hands its timed_out flag to on_finish (false: a constant `false` is passed, F17)"),
+    ("hubStopFailureExclusive", "bin/src/command/requests.rs",
+     r"if !\(timed_out && self\.hardness\) \{\s*client\.finish_ok\(",
+     r"must leave the master in the Stopping state\"\s*\);\s*client\.finish_ok\(",
+     "StopTask::on_finish sends finish_ok only when it did not already send the timed-out failure"),
+]
+
+
+# byte sets written as a `matches!(b, b'x' | b'a'..=b'z' | 0x00..=0x1F ...)` pattern:
+# (lean name, file, regex with ONE group = the alternatives of the pattern)
+BYTE_SETS = [
+    # --- Headers (C03/C13) ---
+    ("hdrTchar", "lib/src/protocol/mux/pkawa.rs", r"fn is_tchar\(b: u8\) -> bool \{\s+matches!\(\s+b,([^)]+)\)"),
+    ("hdrPseudoValueForbidden", "lib/src/protocol/mux/pkawa.rs", r"fn has_invalid_pseudo_value_byte\(value: &\[u8\]\) -> bool \{\s+value\.iter\(\)\.any\(\|&b\| matches!\(b,([^)]+)\)\)"),
+    ("hdrValueCtlImmediate", "lib/src/protocol/mux/pkawa.rs", r"\n\s+((?:0x[0-9A-Fa-f]{2}(?:\.\.=0x[0-9A-Fa-f]{2})? \| )+0x7F) => \{\s+return Some\(RejectReason::CrlfInValue\);"),
+    ("hdrValueCrLf", "lib/src/protocol/mux/pkawa.rs", r"\n\s+(0x0A \| 0x0D) => saw_crlf = true,"),
+    ("hdrH2OutValueForbidden", "lib/src/protocol/mux/converter.rs", r"\.any\(\|&b\| matches!\(b,([^)]+)\)\)\s+\{\s+error!\(\s+\"\{\} H1->H2 header value contains invalid characters"),
+]
+
+# lists of byte-string literals: (lean name, file, regex with ONE group = region, item regex with ONE group)
+STRING_LISTS = [
+    ("hdrConnectionSpecific", "lib/src/protocol/mux/pkawa.rs", r"fn is_connection_specific_header\(name: &\[u8\]\) -> bool \{([\s\S]*?)\n\}", r'compare_no_case\(name, b"([^"]+)"\)'),
+    ("hdrTrailerElided", "lib/src/protocol/mux/pkawa.rs", r"if matches!\(\s+k\.as_ref\(\),([^)]+)\)", r'b"([^"]+)"'),
 ]
 
 
@@ -114,6 +192,35 @@ def ev(expr):
     if not re.fullmatch(r"[0-9a-fA-FxX\s\+\-\*/<>\(\)]+", e):
         raise ValueError(f"not a literal arithmetic expression: {expr!r}")
     return int(eval(e, {"__builtins__": {}}, {}))  # noqa: S307 (sanitised above)
+
+
+def byte_lit(tok):
+    tok = tok.strip()
+    m = re.fullmatch(r"b'(\\?.)'", tok)
+    if m:
+        c = m.group(1)
+        esc = {"\\'": 39, "\\\\": 92, "\\n": 10, "\\r": 13, "\\t": 9, "\\0": 0}
+        return esc[c] if c in esc else ord(c)
+    return ev(tok)
+
+
+def byte_set(alts):
+    tok = r"(?:b'(?:\\.|[^'\\])'|0x[0-9A-Fa-f]+|\d+)"
+    text = re.sub(r"//.*", "", alts)
+    out = set()
+    pos = 0
+    for m in re.finditer(rf"({tok})(?:\s*\.\.=\s*({tok}))?", text):
+        if text[pos:m.start()].strip(" \n\t|") != "":
+            raise ValueError(f"unexpected text in byte pattern: {text[pos:m.start()]!r}")
+        pos = m.end()
+        lo = byte_lit(m.group(1))
+        hi = byte_lit(m.group(2)) if m.group(2) else lo
+        out.update(range(lo, hi + 1))
+    if text[pos:].strip(" \n\t|,") != "":
+        raise ValueError(f"unexpected trailing text in byte pattern: {text[pos:]!r}")
+    if not out or max(out) > 255:
+        raise ValueError("empty or out-of-range byte set")
+    return sorted(out)
 
 
 def main():
@@ -149,6 +256,38 @@ def main():
             lines.append(f"def {name} : List Nat := [{', '.join(str(v) for v in vals)}]")
         except Exception as ex:  # noqa: BLE001
             errors.append(f"{name} ({f}): {ex}")
+    for name, f, pat_t, pat_f, doc in FLAGS:
+        try:
+            t = re.search(pat_t, src(f)) is not None
+            fl = re.search(pat_f, src(f)) is not None
+            if t == fl:
+                raise ValueError("cannot tell which shape the code has (true-pattern %s, false-pattern %s)" % (t, fl))
+            lines.append(f"/-- {doc} ({f}) -/")
+            lines.append(f"def {name} : Bool := {'true' if t else 'false'}")
+        except Exception as ex:  # noqa: BLE001
+            errors.append(f"{name} ({f}): {ex}")
+    for name, f, pat in BYTE_SETS:
+        try:
+            m = re.search(pat, src(f), flags=re.S)
+            if not m:
+                raise ValueError("pattern not found")
+            vals = byte_set(m.group(1))
+            lines.append(f"def {name} : List Nat := [{', '.join(str(v) for v in vals)}]")
+        except Exception as ex:  # noqa: BLE001
+            errors.append(f"{name} ({f}): {ex}")
+    for name, f, pat, item in STRING_LISTS:
+        try:
+            m = re.search(pat, src(f), flags=re.S)
+            if not m:
+                raise ValueError("pattern not found")
+            items = re.findall(item, m.group(1))
+            if not items:
+                raise ValueError("no items")
+            body = ", ".join("[" + ", ".join(str(b) for b in it.encode()) + "]" for it in items)
+            lines.append(f"/-- {' '.join(items)} ({f}) -/")
+            lines.append(f"def {name} : List (List Nat) := [{body}]")
+        except Exception as ex:  # noqa: BLE001
+            errors.append(f"{name} ({f}): {ex}")
     lines += ["", "end Sozu.Consts", ""]
     if errors:
         print("extract_consts: cannot extract:\n  " + "\n  ".join(errors))
@@ -159,9 +298,9 @@ def main():
         os.makedirs(os.path.dirname(out), exist_ok=True)
         with open(out, "w") as fh:
             fh.write(text)
-        print(f"extract_consts: wrote {out} ({len(SPECS) + len(BYTE_TABLES)} items)")
+        print(f"extract_consts: wrote {out} ({len(SPECS) + len(BYTE_TABLES) + len(FLAGS)} items)")
     else:
-        print(f"extract_consts: {out} up to date ({len(SPECS) + len(BYTE_TABLES)} items)")
+        print(f"extract_consts: {out} up to date ({len(SPECS) + len(BYTE_TABLES) + len(FLAGS)} items)")
 
 
 if __name__ == "__main__":
